@@ -124,7 +124,7 @@ def run(tier):
         scen.append(like_scen(pat, ctexts, "where", "sync"))
     for k, pat in enumerate(rng.sample(pats, 40 if quick else 200)):
         scen.append(like_scen(pat, rng.sample(texts_all, 40), "selpar", "sync" if k % 2 else "emit"))
-    seqfam.run_scenarios(res, scen, "TraceDirect", tag="like", relayout_p=0.3)
+    seqfam.run_scenarios(res, scen, "TraceDirect", tag="like", relayout_p=0.3, rename_p=0.3)
     hav = [having_scen(rng, ["like", "notnull", "isnull", "like_and_notnull", "notnull_and_like"], ["a%", "%b", "a_", "%", "%a%", "a%b", "x%aab", "_"]) for _ in range(150 if quick else 5000)]
     seqfam.run_scenarios(res, hav, "TracePostAgg", tag="having")
     scen += hav
